@@ -1,5 +1,6 @@
 import ERP.Lemmas.Ctrl
 import ERP.Lemmas.RealOps
+import ERP.Lemmas.GenTies
 /-! # C02 — Transparency: a print that never touches a region is forwarded verbatim -/
 namespace ERP.C02
 open ERP T Spec
